@@ -152,6 +152,12 @@ def o12(ctx):
     if df.order != EM_FIELDS:
         ctx.finding(q, "columns of the table built by read_in", "the reader must name the 20 file columns in the EM field order",
                     fn, m, columns=df.order)
+    # every particle of the file is a row of the table, in the file's order: nothing selected, nothing sorted
+    hist = [n for n in df.notes if n[0] not in ("reset_index", "astype")]
+    ctx.count(1, {"rows of the reader's table": df.space.chain() if df.space is not None else None, "filters": [tm.show(x)[:60] for x in df.filters]})
+    if df.filters or hist or (df.space is not None and any(x in df.space.chain() for x in ("filter", "sort", "dedup", "sample"))):
+        ctx.finding(q, "rows of the table built by read_in", "read_in must return every particle stored in the file, in the file's order; the table is "
+                    f"restricted / re-ordered: {[tm.show(x)[:80] for x in df.filters] or hist or df.space.chain()}", fn, m)
     reads = [e for e in it.events if e.kind == "call" and e.name == "emfile.read"]
     if len(reads) != 1:
         raise Unsupported("expected one emfile.read call", fn)
